@@ -4,7 +4,8 @@
           datasets = [[min birth, max death, [element keys in order]]] (1-based ids; for the landscaper of the selected degree),
           events = [[opcode, ds, attrs, outs]] with opcode 1 = fit, 2 = transform, 3 = fit_transform,
                    attrs = decoded public attributes after the call (ints), outs = [[element key, digest]] of the returned value(s),
-                   then a decodable flag and the digest of the exact float attributes (memo key)
+                   then a decodable flag, the digest of the exact float attributes (memo key) and a flag "the images of the empty diagrams
+                   inserted among the others were all-zero and in place" (1 when none were inserted)
           init = the decoded attributes right after construction
    The memo makes "same fitted state and same diagram => same output, whatever the history or call style" an invariant of the trace. *)
 EXTENDS Integers, Sequences, FiniteSets, TLC, FiniteSetsExt, Json, IOUtils, TLCExt
@@ -30,6 +31,7 @@ Walk(c, i, prevAttrs, fitted, memoOut, memoFit) ==
           ELSE IF op \in {1, 3} /\ c.kind = "imager" /\ \E m \in memoFit : m[1] = ds /\ m[2] # attrs THEN <<"fail", i, "fit-depends-on-earlier-fits">>
           ELSE IF op \in {2, 3} /\ keys # Tup(c.datasets[ds][3]) THEN <<"fail", i, "collection-not-mapped-element-by-element-in-order">>
           ELSE IF op \in {2, 3} /\ clash THEN <<"fail", i, "same-state-and-diagram-different-output">>
+          ELSE IF op = 2 /\ e[7] = 0 THEN <<"fail", i, "collection-not-mapped-element-by-element-in-order">>      \* empty diagrams among the others: zero images, everybody in place
           ELSE Walk(c, i + 1, attrs, fitted \/ op \in {1, 3}, IF op \in {2, 3} THEN memoOut \cup newOut ELSE memoOut,
                     IF op \in {1, 3} THEN memoFit \cup {<<ds, attrs>>} ELSE memoFit)
 \* c.init: the attributes right after construction -- a transform BEFORE any fit must leave them alone as well (an estimator whose
